@@ -82,3 +82,21 @@ package updates
 //@ func (modelUpdate).isEmpty
 //@ pure
 //@ ensures result == (mu.rowUpdate2 == nil && mu.old == nil && mu.new == nil)
+
+// ---- references.go (C04): reference extraction ----------------------------------
+
+//@ func refTable
+//@ pure
+//@ may_panic
+
+// Every reference recorded for a map column is recorded once: the from-list of
+// each (location, target) is exactly [uuid], however many keys or values of the
+// map point at that target.
+//@ pred OnceFrom(refs database.References, uuid string) := forall s: database.ReferenceSpec, t: string :: (s in refs) && (t in refs[s]) ==> (len(refs[s][t]) == 1 && refs[s][t][0] == uuid)
+//@ pred RefsFreshWF(refs database.References) := (forall s: database.ReferenceSpec :: (s in refs) ==> (refs[s] != nil && allocated(refs[s]))) && (forall s1: database.ReferenceSpec, s2: database.ReferenceSpec :: s1 != s2 && (s1 in refs) && (s2 in refs) ==> refs[s1] != refs[s2]) && (forall s: database.ReferenceSpec, t: string :: (s in refs) && (t in refs[s]) ==> allocated(refs[s][t]))
+//@ func getReferenceModificationsFromMap
+//@ modifies nothing
+//@ ensures result != nil ==> OnceFrom(result, uuid)
+//@ loop 1 invariant refs != nil && fresh(refs) && RefsFreshWF(refs) && OnceFrom(refs, uuid)
+//@ loop 1 invariant forall s: database.ReferenceSpec :: (s in refs) ==> (fresh(refs[s]) && (s == keySpec || s == valueSpec))
+//@ loop 1 invariant forall s: database.ReferenceSpec, t: string :: (s in refs) && (t in refs[s]) ==> fresh(refs[s][t])
